@@ -52,6 +52,7 @@ type inst struct {
 	el          leader.Election
 	conn        *nats.Conn
 	gauge       atomic.Int32
+	prom        leader.Metrics // the library's own Prometheus sink on a private registry: every metrics call is passed on to it as well
 	inStop      atomic.Int32
 	started     atomic.Bool
 	hmu         sync.Mutex
@@ -130,10 +131,11 @@ func (l recLogger) Fatal(msg string, f ...zap.Field) { l.log("fatal", msg, f) }
 
 type recMetrics struct{ i *inst }
 
-func (m recMetrics) SetIsLeader(v float64, _ prometheus.Labels) {
+func (m recMetrics) SetIsLeader(v float64, l prometheus.Labels) {
 	i := m.i
 	r := i.r
 	flag := v == 1
+	i.prom.SetIsLeader(v, l)
 	// (the flag event marks term boundaries for the oracles: it is taken when the library
 	// makes the call; a slow sink is held afterwards, and only then shows the new value)
 	defer func() {
@@ -163,27 +165,35 @@ func (m recMetrics) SetIsLeader(v float64, _ prometheus.Labels) {
 	r.add(e)
 	r.St.Unlock()
 }
-func (m recMetrics) SetConnectionStatus(v float64, _ prometheus.Labels) {
+func (m recMetrics) SetConnectionStatus(v float64, l prometheus.Labels) {
+	m.i.prom.SetConnectionStatus(v, l)
 	m.i.r.add(Event{Kind: "gauge.conn", Inst: m.i.spec.Name, N: int64(v)})
 }
 func (m recMetrics) IncTransitions(l prometheus.Labels) {
 	// a metrics sink is user code and may be slow: scenarios can hold the call here
 	m.i.r.St.Client(m.i.spec.Name).atPhase("metric:transition:"+l["to_state"], "sink")
 	m.i.r.add(Event{Kind: "transition", Inst: m.i.spec.Name, From: l["from_state"], To: l["to_state"]})
+	m.i.prom.IncTransitions(l)
 }
 func (m recMetrics) IncFailures(l prometheus.Labels) {
 	m.i.r.add(Event{Kind: "metric", Inst: m.i.spec.Name, S: "failure:" + l["error_type"]})
+	m.i.prom.IncFailures(l)
 }
 func (m recMetrics) IncAcquireAttempts(l prometheus.Labels) {
 	m.i.r.add(Event{Kind: "metric", Inst: m.i.spec.Name, S: "acquire:" + l["status"]})
+	m.i.prom.IncAcquireAttempts(l)
 }
-func (m recMetrics) IncTokenValidationFailures(prometheus.Labels) {
+func (m recMetrics) IncTokenValidationFailures(l prometheus.Labels) {
 	m.i.r.add(Event{Kind: "metric", Inst: m.i.spec.Name, S: "tokenfail"})
+	m.i.prom.IncTokenValidationFailures(l)
 }
-func (m recMetrics) ObserveHeartbeatDuration(time.Duration, prometheus.Labels) {}
-func (m recMetrics) ObserveLeaderDuration(d time.Duration, _ prometheus.Labels) {
+func (m recMetrics) ObserveHeartbeatDuration(d time.Duration, l prometheus.Labels) {
+	m.i.prom.ObserveHeartbeatDuration(d, l)
+}
+func (m recMetrics) ObserveLeaderDuration(d time.Duration, l prometheus.Labels) {
 	m.i.r.St.Client(m.i.spec.Name).atPhase("metric:leaderdur", "sink")
 	m.i.r.add(Event{Kind: "metric", Inst: m.i.spec.Name, S: "leaderdur", N: int64(d)})
+	m.i.prom.ObserveLeaderDuration(d, l)
 }
 
 // ---- health ----
@@ -244,6 +254,7 @@ func newRunner(t *testing.T, spec *Spec) *Runner {
 		is := &spec.Insts[k]
 		i := &inst{r: r, spec: is}
 		i.gauge.Store(-1)
+		i.prom = leader.NewPrometheusMetrics(prometheus.NewRegistry())
 		r.insts[is.Name] = i
 		r.order = append(r.order, i)
 		r.groups[is.Group] = append(r.groups[is.Group], i)
@@ -849,8 +860,30 @@ func CensusOf(dump string) (lib []string, maxRepeat int) {
 // yield policy of the scenario currently running (one bubble at a time per process)
 var curRunner atomic.Pointer[Runner]
 
+// LeadersNow returns the instances of the running scenario that report leadership right now
+// (atomic reads; for the stall watchdog, which runs outside the bubble).
+func LeadersNow() []string {
+	r := curRunner.Load()
+	if r == nil {
+		return nil
+	}
+	var out []string
+	for _, i := range r.order {
+		if i.el != nil && i.el.IsLeader() {
+			out = append(out, i.spec.Name)
+		}
+	}
+	return out
+}
+
 // YieldHook is installed as leader.VerifYield by the sim engine.
 func YieldHook(site string) {
+	if site == "becomeLeaderPublishing" {
+		// inside becomeLeader's critical section (flag up, token not yet): only the real-time
+		// engine does anything there. In a bubble a goroutine may not be parked or delayed
+		// under a library mutex - waiters on a mutex are not durably blocked.
+		return
+	}
 	r := curRunner.Load()
 	if r == nil {
 		return
